@@ -515,6 +515,17 @@ func checkT1(c *Ctx, jr *joinRoles) {
 	}
 	// the constructor starts the clock before the goroutine runs
 	for _, ctor := range jr.d.Ctors {
+		hasGo := false
+		for _, b := range ctor.Blocks {
+			for _, in := range b.Instrs {
+				if _, isGo := in.(*ssa.Go); isGo {
+					hasGo = true
+				}
+			}
+		}
+		if !hasGo {
+			continue // a private builder: the clock is started by the function that starts the goroutine
+		}
 		started := false
 		for _, b := range ctor.Blocks {
 			for _, in := range b.Instrs {
